@@ -3,6 +3,7 @@ package simrt
 import (
 	"errors"
 	"fmt"
+	"net/http"
 	"strings"
 
 	protovalidate "buf.build/go/protovalidate"
@@ -47,6 +48,9 @@ func (propC01) Draw(rt *rapid.T, w *WorldDesc, mode string) *Plan {
 			op.Opts = append(op.Opts, Opt{Kind: "contentType", Value: ct})
 		}
 		op.Opts = append(op.Opts, drawHeaderOpts(rt, w.RPC(md.Key), fmt.Sprintf("op%d.hdr", i))...)
+		if rapid.Bool().Draw(rt, fmt.Sprintf("op%d.marker", i)) {
+			op.Opts = append(op.Opts, Opt{Kind: "header", Key: fmt.Sprintf("X-Marker-%d", i), Value: fmt.Sprintf("op%d", i)})
+		}
 		req := drawReq(rt, w, md, fmt.Sprintf("op%d.req", i))
 		resp := NewFilled(rt, md.NewResp, fmt.Sprintf("op%d.resp", i), nil)
 		op.ReqBin, op.RespBin = mustMarshal(req), mustMarshal(resp)
@@ -58,6 +62,7 @@ func (propC01) Draw(rt *rapid.T, w *WorldDesc, mode string) *Plan {
 		op.StartMs = rapid.SampledFrom([]int{0, 0, 0, 1, 10}).Draw(rt, fmt.Sprintf("op%d.start", i))
 		p.Ops = append(p.Ops, op)
 	}
+	p.Sequential = rapid.IntRange(0, 3).Draw(rt, "sequential") == 0
 	p.Schedule = drawSchedule(rt, 64)
 	return p
 }
@@ -146,6 +151,9 @@ func checkDelivery(k *Kernel, cov *Coverage, prop string) *Violation {
 			f := firstDiff(c.Req, mine[0].Req)
 			return &Violation{Class: "request-mismatch", Signature: sig("request-mismatch", "in="+annType(rpc.In)+"|"+fieldShape(k.W, rpc, rpc.In, f)),
 				Detail: fmt.Sprintf("op %d %s field %q: caller passed %s, handler saw %s", c.Op.ID, c.Op.RPC, f, jsonOf(c.Req), jsonOf(mine[0].Req))}
+		}
+		if v := checkWireHeaders(k, c, prop, pair); v != nil {
+			return v
 		}
 		if c.Resp == nil || !proto.Equal(c.Resp, c.HandlerResp) {
 			f := firstDiff(c.HandlerResp, c.Resp)
@@ -279,6 +287,57 @@ func methodSpec(w *WorldDesc, rpc *spec.RPC) *spec.Method {
 				if m.Name == rpc.Method {
 					return m
 				}
+			}
+		}
+	}
+	return nil
+}
+
+// checkWireHeaders: the request on the wire carries exactly the headers this call was
+// given (client-level defaults overridden by per-call options) and none that belong to
+// another call's per-call options.
+func checkWireHeaders(k *Kernel, c *CallState, prop, pair string) *Violation {
+	if c.Op.Client != "go" && c.Op.Client != "ts" {
+		return nil
+	}
+	if len(c.Wire) == 0 {
+		return nil
+	}
+	wire := c.Wire[0].Header
+	want := map[string]string{}
+	if c.Op.ClientIdx < len(k.Plan.Clients) {
+		for _, o := range k.Plan.Clients[c.Op.ClientIdx] {
+			if o.Kind == "header" || o.Kind == "helper" {
+				want[http.CanonicalHeaderKey(o.Key)] = o.Value
+			}
+		}
+	}
+	for _, o := range c.Op.Opts {
+		if o.Kind == "header" || o.Kind == "helper" {
+			want[http.CanonicalHeaderKey(o.Key)] = o.Value
+		}
+	}
+	for name, v := range want {
+		if got := wire.Get(name); got != v {
+			return &Violation{Class: "wire-header-wrong", Signature: prop + "|wire-header-wrong|" + pair,
+				Detail: fmt.Sprintf("op %d %s: header %s was given as %q (options), the request on the wire carries %q", c.Op.ID, c.Op.RPC, name, v, got)}
+		}
+	}
+	for _, other := range k.Calls {
+		if other == c {
+			continue
+		}
+		for _, o := range other.Op.Opts {
+			if o.Kind != "header" && o.Kind != "helper" {
+				continue
+			}
+			name := http.CanonicalHeaderKey(o.Key)
+			if _, mine := want[name]; mine {
+				continue
+			}
+			if got := wire.Get(name); got != "" {
+				return &Violation{Class: "wire-header-leak", Signature: prop + "|wire-header-leak|" + pair,
+					Detail: fmt.Sprintf("op %d %s carries header %s=%q on the wire, which only op %d was given as a per-call option", c.Op.ID, c.Op.RPC, name, got, other.Op.ID)}
 			}
 		}
 	}
